@@ -57,6 +57,7 @@ var handWritten = []textCase{
 	{Tokens: "var \\u0069f = 1 ;"},
 	{Tokens: "function f ( \\u0074his ) { }"},
 	{Tokens: "f\\u006fr : while ( 0 ) break f\\u006fr ;"},
+	{Tokens: "a . function ( b ) ; a . function ( b , ) ; new a [ c ( ) ] . function ( b , ) ; x = { function : 1 } . function"},
 	{Tokens: "a b ;"},
 	{Tokens: "a = ;"},
 	{Tokens: ""},
